@@ -206,7 +206,7 @@ fn mutate_node(node: &mut Node, rng: &mut Rng) {
         Payload::Leaf(b) => b.len(),
         Payload::Struct(s) => s.bytes().map(|b| b.len()).unwrap_or(0),
     };
-    match rng.below(14) {
+    match rng.below(15) {
         0 => node.prefix_override = Some(vec![0x81]),
         1 => node.prefix_override = Some(vec![0x82]),
         2 => node.prefix_override = Some(vec![0x82, rng.byte()]),
@@ -292,6 +292,26 @@ fn mutate_node(node: &mut Node, rng: &mut Rng) {
             node.payload = Payload::Leaf(rng.bytes(n));
         }
         12 => node.payload = Payload::Leaf(vec![]),
+        13 => {
+            // one more entry at the end of this element's content: a tag (unknown 1F xx, a random one, or one the
+            // schema knows), a length that is honest or off by a few bytes against what really follows, then data.
+            // The enclosing lengths stay honest, so the element is reached with a complete-looking container.
+            let mut p = match &node.payload {
+                Payload::Leaf(b) => b.clone(),
+                Payload::Struct(s) => s.bytes().unwrap_or_default(),
+            };
+            match rng.below(4) {
+                0 | 1 => p.extend([0x1f, rng.byte()]),
+                2 => p.push(rng.byte()),
+                _ => p.extend(*rng.pick(&[&[0x1f, 0x0e][..], &[0x1f, 0x0f], &[0x1f, 0x10], &[0x07], &[0x60], &[0x34], &[0x1f, 0x80, 0x00]])),
+            }
+            let l = *rng.pick(&[0usize, 1, 2, 3, 4, 6, 127, 128, 255, 256]);
+            let delta: i64 = *rng.pick(&[-1, -1, -1, -2, -3, 0, 0, 1, 2]);
+            p.extend(ber_len(l).unwrap());
+            let have = (l as i64 + delta).max(0) as usize;
+            p.extend((0..have).map(|i| 0x20 + (i % 64) as u8));
+            node.payload = Payload::Leaf(p);
+        }
         _ => {
             if let Payload::Leaf(b) = &mut node.payload {
                 if !b.is_empty() {
